@@ -126,6 +126,10 @@ def run(ctx):
     n = ctx.budget(150_000, 1_500_000)
     done = 0
     while done < n and ctx.alive():
+        if rng.random() < 0.003:
+            from plotink import ebb_calc as _ec
+            G.failed_call(rng, rng.choice((_ec.max_rate_t3, _ec.rate_t3)), 4)
+            ctx.tag("history: after a failed call (malformed arguments)")
         case = G.gen_t3_case(rng)
         if case is None:
             ctx.count("generator:rejected draw (outside domain)")
